@@ -125,12 +125,16 @@ function pointChange(rng, env, holder, names, opts = {}) {
   return null;
 }
 
+const PROTO_NAMES = ["toString", "valueOf", "constructor", "hasOwnProperty", "isPrototypeOf", "toLocaleString", "__proto__"];
 // ---- rewrites that leave the type the same up to names, alias boundaries, property order and descriptions ----
 function sameRewrite(rng, env, holder, fresh) {
   const renameAll = (x, m) => { if (!Array.isArray(x)) return; if (head(x) === "ref" && m.has(x[1])) x[1] = m.get(x[1]); x.forEach((y) => renameAll(y, m)); };
   switch (rng.below(6)) {
     case 0: { // alpha: rename every name, permute the environment
-      const m = new Map(env.map(([n], i) => [n, n[0] + "r" + (fresh.n++)]));
+      // (sometimes a type is called like a member of Object.prototype: a table of names must not find inherited members)
+      const proto = PROTO_NAMES.filter((n) => !env.some((e) => e[0] === n));
+      const odd = env.length && proto.length && rng.chance(1, 3) ? rng.below(env.length) : -1;
+      const m = new Map(env.map(([n], i) => [n, i === odd ? rng.pick(proto) : n[0] + "r" + (fresh.n++)]));
       env.forEach((e) => { e[0] = m.get(e[0]); renameAll(e[1], m); }); renameAll(holder.rt, m);
       for (let i = env.length - 1; i > 0; i--) { const j = rng.below(i + 1); const t = env[i]; env[i] = env[j]; env[j] = t; }
       return "alpha";
